@@ -101,6 +101,9 @@ class WatermarkPoolSink(PoolSink):
       if item.state <= ChannelState.Open:
         return item
       else:
+        # The sink died while cached, it no longer counts towards the pool size.
+        self._current_size -= 1
+        self._varz.size(self._current_size)
         self._DiscardSink(item)
     return None
 
